@@ -1,6 +1,6 @@
 (* Proofs/HintStoreProofs.v -- recovery over rendered listings, and the store machine's invariant (C10). *)
 From Coq Require Import ZArith NArith Lia ZifyBool List Bool Permutation.
-Require Import DS.Model.HintPrim DS.Gen.GenHint DS.Model.Hint DS.Model.HintStore DS.Proofs.HintProofs.
+Require Import DS.Model.HintPrim DS.Gen.GenHint DS.Gen.GenHintPins DS.Model.Hint DS.Model.HintStore DS.Proofs.HintProofs.
 Import ListNotations.
 Open Scope N_scope.
 
@@ -739,4 +739,25 @@ Lemma tiebreak_equal_mtime_first_listed :
   let a := {| fver := 1; fid := wid 1; fmt := 5; fcom := true; fuuid := 7; fsnaps := [1] |} in
   let o := {| fver := 1; fid := wid 2; fmt := 5; fcom := false; fuuid := 7; fsnaps := [1; 2] |} in
   resolve None (map entry_of [o; a]) = RRet (Some (1, fname o)) /\ resolve None (map entry_of [a; o]) = RRet (Some (1, fname a)).
+Proof. vm_compute. split; reflexivity. Qed.
+
+(* ------------------------------------------------------------------ recovery orders versions as NUMBERS *)
+(* Whatever recovery returns from a listing of rendered names is a listed file of the numerically highest version,
+   however many decimal digits the versions have (names are compared through int(), never as strings). *)
+Theorem recover_highest : forall fs v name,
+  Forall wf_file fs -> recover (map entry_of fs) = RRet (Some (v, name)) ->
+  exists r, In r fs /\ v = fver r /\ name = fname r /\ forall f, In f fs -> fver f <= fver r.
+Proof.
+  intros fs v name Hwf H. rewrite (recover_refines fs Hwf) in H.
+  destruct (arec fs None) as [r|] eqn:E; [|discriminate H]. cbn in H. inversion H; subst.
+  exists r. destruct (arec_max _ _ _ E) as [Hmax _]. apply arec_in in E. destruct E as [E|E]; [|discriminate E].
+  repeat split; auto.
+Qed.
+
+(* nine versus ten: as decimal strings "9" sorts after "10"; recovery picks 10 in either listing order, whatever the mtimes *)
+Lemma recover_nine_ten :
+  let f9 := {| fver := 9; fid := wid 9; fmt := 50; fcom := true; fuuid := 7; fsnaps := [] |} in
+  let f10 := {| fver := 10; fid := wid 1; fmt := 5; fcom := true; fuuid := 7; fsnaps := [] |} in
+  resolve None (map entry_of [f9; f10]) = RRet (Some (10, fname f10))
+  /\ resolve None (map entry_of [f10; f9]) = RRet (Some (10, fname f10)).
 Proof. vm_compute. split; reflexivity. Qed.
